@@ -568,6 +568,10 @@ fn observe(holder: &Item, target: Target) -> Vec<String> {
             out.push("printed -".to_string());
         }
     }
+    // the same lookups through the `Item` that holds the container
+    for k in KEYS {
+        out.push(format!("item.get {k} {:?} {}", holder.get(k).and_then(item_payload), holder.get(k).is_some()));
+    }
     out
 }
 
@@ -608,6 +612,9 @@ fn observe_model(m: &KM, target: Target) -> Vec<String> {
     match target {
         Target::Table | Target::Inline => out.push(format!("printed {:?}", vis.iter().map(|(k, p)| (k.clone(), Some(*p))).collect::<Vec<_>>())),
         _ => out.push("printed -".to_string()),
+    }
+    for k in KEYS {
+        out.push(format!("item.get {k} {:?} {}", m.get(k), m.get(k).is_some()));
     }
     out
 }
